@@ -23,7 +23,7 @@ def register(check):
                "header/trailer/request metadata (absent, empty, multi-valued, -bin), handler call orders and caller Header()/Trailer() positions from the PRNG; "
                "non-trivial = the outcome oracle compared at least one terminal result with the handler's scripted status; distinct = hash of (family, cfg, per-RPC op/outcome sequence)",
           nontrivial="outcome_checked",
-          floors={"quick": {"outcome_checked": 500, "header_reads_checked": 300, "trailer_reads_checked": 500, "request_md_checked": 200, "gate_releases": 2000, "yield:client.finish.betweenPublish": 200, "nonutf8_probes": 6},
+          floors={"quick": {"outcome_checked": 500, "header_reads_checked": 300, "trailer_reads_checked": 500, "request_md_checked": 200, "gate_releases": 1500, "yield:client.finish.betweenPublish": 200, "nonutf8_probes": 6},
                   "thorough": {"outcome_checked": 15000, "header_reads_checked": 9000, "trailer_reads_checked": 15000, "gate_releases": 60000}},
           assumptions=COMMON_ASSUMPTIONS)
     check("C18",
